@@ -69,6 +69,7 @@ type dcBehaviour struct {
 	Frame   string   `json:"frame_b64"` // the fixed valid header block (ends with an empty line)
 	Items   []dcItem `json:"items"`
 	Timeout int      `json:"timeout_ms"`
+	Debug   bool     `json:"netdebug"` // the servers run with -netdebug (traffic transcript on stdout)
 }
 
 type dcInput struct {
@@ -248,6 +249,7 @@ func dcSetup(b dcBehaviour, scratch string) (*dcEnv, error) {
 	if err != nil {
 		return nil, fmt.Errorf("config.Process: %v", err)
 	}
+	root.SMTP.Debug = b.Debug
 	host := extension.NewHost()
 	e := &dcEnv{dir: filepath.Join(scratch, "store-"+b.ID)}
 	if b.Store == "file" {
@@ -259,7 +261,7 @@ func dcSetup(b dcBehaviour, scratch string) (*dcEnv, error) {
 	ap := &policy.Addressing{Config: root}
 	e.mgr = &message.StoreManager{AddrPolicy: ap, Store: e.store, ExtHost: host}
 	e.smtp = smtp.NewServer(root.SMTP, e.mgr, ap, host)
-	if e.pop3, err = pop3.NewServer(config.POP3{Addr: "127.0.0.1:0", Domain: "inbucket.test", Timeout: 120 * time.Second}, e.store); err != nil {
+	if e.pop3, err = pop3.NewServer(config.POP3{Addr: "127.0.0.1:0", Domain: "inbucket.test", Timeout: 120 * time.Second, Debug: b.Debug}, e.store); err != nil {
 		return nil, err
 	}
 	// as pkg/server/lifecycle.go FullAssembly, on a fresh router
